@@ -322,6 +322,9 @@ func (x *Exec) convert(from, to types.Type, v Value) Value {
 						return Str{[]*Term{ts.Trunc(fv, 8)}}
 					}
 					// two-byte UTF-8 sequence for U+0080..U+07FF (covers every byte value converted as a rune)
+					if fv.S.W < 16 {
+						fv = ts.ZExt(fv, 16) // string(b) of a byte: the rune is the byte's value
+					}
 					if x.branch(ts.Cmp(OULt, fv, ts.BV(fv.S.W, 0x800)), "rune-2byte") {
 						w := fv.S.W
 						hi := ts.Bin(OBOr, ts.BV(w, 0xC0), ts.Bin(OLShr, fv, ts.BV(w, 6)))
